@@ -104,7 +104,9 @@ Ltac inst_tac g :=
   intros pis o f u Hn Hp Ho Hf Hu;
   explode pis Hn; explode o Ho; explode f Hf; explode u Hu;
   perm_cases Hp;
-  run_both g; cases_cmp; reflexivity.
+  run_both g; cases_cmp;
+  first [ reflexivity
+        | fail 1 "the definition regenerated from pydrex.stats.resample_orientations differs from Model_stats.resample (faithful) on some path" ].
 
 (* ---------------------------------------------------------------------------------------- *)
 (* the shape test, symbolic dimensions, every pair of ranks                                  *)
@@ -123,7 +125,9 @@ Ltac validate_tac g so sf :=
   repeat match goal with
   | |- context [Z.eqb ?x ?y] => destruct (Z.eqb_spec x y)
   | |- context [Nat.eqb ?x ?y] => destruct (Nat.eqb_spec x y)
-  end; cbn [negb orb]; first [ reflexivity | exfalso; lia ].
+  end; cbn [negb orb];
+  first [ reflexivity | exfalso; lia
+        | fail 1 "the shape test regenerated from pydrex.stats.resample_orientations differs from Model_stats.shape_bad" ].
 
 Lemma validate_inst_o0_f0 (so sf : list nat) : length so = 0%nat -> length sf = 0%nat ->
   @k_validate_o0_f0 NumR  = validate_model so sf.
